@@ -29,6 +29,7 @@ def check(ctx):
     iters = (0, 1)
     views = family_views(P, "Node")
     c06.transfer_guard(ctx, P, iters)
+    c06.unblock_guard(ctx, P, iters)
     block_keeps_server(ctx, P, views, iters)
     departure_unblocks(ctx, P, views, iters)
     fifo(ctx, P, views, iters)
@@ -311,6 +312,10 @@ def blocked_flag(ctx, P, views, iters):
             ctx.violation(ob, "R14.flag", q, unparse(node), "set-outside-block", "is_blocked set True outside block_individual", loc(node))
         if val not in ("True", "False"):
             ctx.violation(ob, "R14.flag", q, unparse(node), "non-literal", "is_blocked must be assigned boolean literals", loc(node))
+        if val == "False" and not (rules.effective_names(P, ci, fn) & {"accept", "begin_interrupted_individuals_service", "__init__"}):
+            # release() passes the flag to the state tracker and accept() clears it: cleared any earlier, the unblocking is reported as an ordinary departure
+            ctx.violation(ob, "R14.flag", q, unparse(node), "cleared-before-release", "is_blocked is cleared before the customer has been released: "
+                          "release() reports `blocked` to the state tracker from this flag (it is cleared by the accept() that follows)", loc(node))
     ctx.floor("is_blocked writes", n, 3)
     for view in views:
         # accept clears it for the arriving customer on every path
